@@ -36,6 +36,7 @@ import (
 	"github.com/lindb/lindb/metrics"
 	"github.com/lindb/lindb/models"
 	"github.com/lindb/lindb/pkg/timeutil"
+	"github.com/lindb/lindb/pkg/verifhook"
 	"github.com/lindb/lindb/series/metric"
 	"github.com/lindb/lindb/tsdb/memdb"
 	"github.com/lindb/lindb/tsdb/tblstore/metricsdata"
@@ -525,6 +526,7 @@ func (f *dataFamily) WriteRows(rows []*metric.StorageRow) error {
 		f.statistics.WriteMetricFailures.Add(float64(len(rows)))
 		return err
 	}
+	verifhook.Yield("tsdb.family.write.afterGetMemDB")
 	db.AcquireWrite()
 	defer func() {
 		f.statistics.WriteBatches.Incr()
